@@ -339,17 +339,15 @@ func fieldByID(id string) (fieldDef, bool) {
 
 func (lw *liveWorld) placeholders(depth int, e string) string {
 	root := absOf(lw.w.stackFor(depth)[0])
-	out := absOf(lw.w.abs("zw", "out"))
+	e = strings.ReplaceAll(e, root+"-evil", "@OUT@")
 	e = strings.ReplaceAll(e, root, "@ROOT@")
-	e = strings.ReplaceAll(e, out, "@OUT@")
 	return e
 }
 
 func (lw *liveWorld) expand(depth int, e string) string {
 	root := absOf(lw.w.stackFor(depth)[0])
-	out := absOf(lw.w.abs("zw", "out"))
+	e = strings.ReplaceAll(e, "@OUT@", root+"-evil")
 	e = strings.ReplaceAll(e, "@ROOT@", root)
-	e = strings.ReplaceAll(e, "@OUT@", out)
 	return e
 }
 
@@ -587,6 +585,12 @@ var rwNames = []string{"a", "b", "c", "root", "root-evil", "k.yaml", "x"}
 
 func genRandTree(g *Rng, links bool, absPrefix string) *vnode {
 	root := newDir()
+	type slot struct {
+		dir  *vnode
+		here []string
+		name string
+	}
+	var linkSlots []slot
 	var fill func(d *vnode, depth int, here []string)
 	fill = func(d *vnode, depth int, here []string) {
 		n := 2 + g.Intn(4)
@@ -602,12 +606,87 @@ func genRandTree(g *Rng, links bool, absPrefix string) *vnode {
 			case k < 7 || !links:
 				d.put(name, &vnode{kind: vFile, content: "content of " + strings.Join(append(append([]string{}, here...), name), "/")})
 			default:
-				d.put(name, &vnode{kind: vLink, target: genLinkTarget(g, absPrefix)})
+				// placeholder, the target is chosen once the tree is complete
+				d.put(name, &vnode{kind: vLink, target: "."})
+				linkSlots = append(linkSlots, slot{d, append([]string{}, here...), name})
 			}
 		}
 	}
 	fill(root, 3, nil)
+	all := root.paths()
+	for _, sl := range linkSlots {
+		var t string
+		if g.Chance(70) && len(all) > 0 {
+			// an existing entry (possibly another link: chains and loops), relative or absolute
+			tgt := all[g.Intn(len(all))]
+			if g.Chance(30) {
+				t = absPrefix + "/" + strings.Join(tgt, "/")
+			} else {
+				t = relPath(sl.here, tgt)
+			}
+			if g.Chance(15) {
+				t = perturb(g, t)
+			}
+		} else {
+			t = genLinkTarget(g, absPrefix)
+		}
+		sl.dir.kids[sl.name].target = t
+	}
 	return root
+}
+
+// paths lists every entry of the tree (no links followed), as component paths.
+func (n *vnode) paths() [][]string {
+	var out [][]string
+	n.walk(nil, func(comps []string, x *vnode) {
+		if len(comps) > 0 {
+			out = append(out, comps)
+		}
+	})
+	return out
+}
+
+// relPath spells target relative to the directory from (both component paths).
+func relPath(from, target []string) string {
+	i := 0
+	for i < len(from) && i < len(target) && from[i] == target[i] {
+		i++
+	}
+	var parts []string
+	for j := i; j < len(from); j++ {
+		parts = append(parts, "..")
+	}
+	parts = append(parts, target[i:]...)
+	if len(parts) == 0 {
+		return "."
+	}
+	return strings.Join(parts, "/")
+}
+
+// perturb rewrites a path into an equivalent-looking or slightly wrong spelling.
+func perturb(g *Rng, p string) string {
+	parts := strings.Split(p, "/")
+	i := g.Intn(len(parts) + 1)
+	if strings.HasPrefix(p, "/") && i == 0 {
+		i = 1 // an absolute path stays absolute (the process working directory is not part of a case)
+	}
+	var ins []string
+	switch g.Intn(6) {
+	case 0:
+		ins = []string{"."}
+	case 1:
+		ins = []string{g.Pick(rwNames), ".."}
+	case 2:
+		ins = []string{""}
+	case 3:
+		ins = []string{".."}
+	case 4:
+		ins = []string{g.Pick(rwNames)}
+	default:
+		ins = []string{"nope", ".."}
+	}
+	out := append(append(append([]string{}, parts[:i]...), ins...), parts[i:]...)
+	return strings.Join(out, "/")
 }
 
 func genLinkTarget(g *Rng, absPrefix string) string {
@@ -642,7 +721,25 @@ func genLinkTarget(g *Rng, absPrefix string) string {
 	return t
 }
 
-func genQueryPath(g *Rng, absPrefix string, allowRel bool) string {
+// genQueryPath: mostly an existing entry of the tree (absolute, or relative to the directory from),
+// sometimes perturbed; sometimes a random walk over the name pool.
+func genQueryPath(g *Rng, all [][]string, from []string, absPrefix string, allowRel bool) string {
+	if g.Chance(75) && len(all) > 0 {
+		tgt := all[g.Intn(len(all))]
+		var p string
+		if allowRel && g.Chance(50) {
+			p = relPath(from, tgt)
+		} else {
+			p = absPrefix + "/" + strings.Join(tgt, "/")
+		}
+		for g.Chance(35) {
+			p = perturb(g, p)
+		}
+		if g.Chance(5) {
+			p += "/"
+		}
+		return p
+	}
 	k := 1 + g.Intn(5)
 	var parts []string
 	for i := 0; i < k; i++ {
@@ -714,8 +811,9 @@ func randomWorldCases(r *Run, rng *Rng, kind string, nWorlds, nQueries int, disk
 			fsTerm = "(VDisk " + name + ")"
 		}
 		dirs := tree.dirs()
+		all := tree.paths()
 		for qi := 0; qi < nQueries; qi++ {
-			p := genQueryPath(g, absPrefix, kind == "mem")
+			p := genQueryPath(g, all, nil, absPrefix, kind == "mem")
 			switch g.Intn(5) {
 			case 0:
 				var d filesys.ConfirmedDir
@@ -750,17 +848,27 @@ func randomWorldCases(r *Run, rng *Rng, kind string, nWorlds, nQueries int, disk
 				// loader chain: root at a random existing directory, optional New, then Load or New
 				rootDir := dirs[g.Intn(len(dirs))]
 				c := chainCase{FS: kind, RootOnly: !g.Chance(10), Target: absOf(w.abs(strings.Join(rootDir, "/")))}
+				cur := rootDir
 				if g.Chance(40) {
-					c.News = append(c.News, genRelRef(g))
+					// a further root: mostly an existing directory, spelled relative to the current root
+					nd := dirs[g.Intn(len(dirs))]
+					ref := relPath(cur, nd)
+					if g.Chance(20) {
+						ref = genRelRef(g)
+					}
+					c.News = append(c.News, ref)
+					cur = nd
 				}
 				c.Op = "load"
 				if g.Chance(30) {
 					c.Op = "new"
 				}
-				if g.Chance(60) {
-					c.Arg = genRelRef(g)
-				} else {
-					c.Arg = p
+				c.Arg = genQueryPath(g, all, cur, absPrefix, true)
+				if c.Op == "new" && g.Chance(70) {
+					c.Arg = relPath(cur, dirs[g.Intn(len(dirs))])
+					if g.Chance(25) {
+						c.Arg = perturb(g, c.Arg)
+					}
 				}
 				if isNetworkish(c.Arg) || isNetworkish(c.Target) {
 					r.Meta.Skipped++
